@@ -17,12 +17,19 @@ from .monitors import (bits_equal, check_array_disk, check_array_readme,
 
 REJECT = object()
 
+
+class Either:
+    """The statement does not fix whether the call is accepted; if it raises the state must be
+    unchanged, otherwise the state must be `accepted`."""
+    def __init__(self, accepted):
+        self.accepted = accepted
+
 # compact alphabet for the bounded-exhaustive part
 ALPHABET = ['app1', 'app2x', 'applist', 'appscalar', 'app0', 'iter2', 'iter0',
             'itergen', 'set', 'trunc0', 'trunc1', 'truncm1', 'truncbelow', 'trunclen',
             'truncstr', 'badshape', 'badrank', 'modecycle', 'reopen']
 # additional ops for long random histories
-EXTRA = ['setscalar', 'trunclen1', 'truncfloat', 'truncmid', 'truncneg2', 'app3',
+EXTRA = ['app_zerod', 'setscalar', 'trunclen1', 'truncfloat', 'truncmid', 'truncneg2', 'app3',
          'recreate', 'recreate_fill', 'md_set', 'md_pop', 'md_clear', 'itergen3']
 STARTS = [(0,), (3,), (0, 2), (2, 2), (2, 1, 3)]
 
@@ -58,6 +65,10 @@ def build(op, ref, rng, meta):
     if op == 'appscalar':
         exp = concat(ref, np.array([7], dtype=dtype)) if trail == () else REJECT
         return exp, lambda D, a, p: (a.append(7), a)[1]
+    if op == 'app_zerod':
+        x = np.array(7, dtype=dtype)
+        acc = concat(ref, np.array([7], dtype=dtype)) if trail == () else ref
+        return (Either(acc) if trail == () else REJECT), lambda D, a, p: (a.append(x), a)[1]
     if op == 'app0':
         x = np.zeros((0,) + trail, dtype=dtype)
         return ref, lambda D, a, p: (a.append(x), a)[1]
@@ -192,6 +203,8 @@ def run(env, res, case, monitors):
                 except Exception as e:   # includes StopIteration etc.
                     raised = e
                 new_bytes = datafile.read_bytes() if datafile.exists() else None
+                if isinstance(expected, Either):
+                    expected = REJECT if raised is not None else expected.accepted
                 if expected is REJECT:
                     res.count('mon.rejected_calls')
                     if 'reject' in monitors:
